@@ -59,6 +59,23 @@ func (x *Exec) frameOf(m Expr, env *Env) []frameEntry {
 		if n.Fn == "ghost" {
 			return x.frameOf(n.Args[0], env)
 		}
+		if n.Fn == "heap" {
+			ty := x.resolveType(n.Args[0].(*EStr).V, env.pkg)
+			switch u := ty.Go.Underlying().(type) {
+			case *types.Slice:
+				hn, hs := x.sliceHeap(u.Elem())
+				return []frameEntry{{heap: hn, sort: hs}}
+			case *types.Map:
+				mv, mp, mvS, mpS, _, _ := x.mapHeaps(u)
+				return []frameEntry{{heap: mv, sort: mvS}, {heap: mp, sort: mpS}}
+			case *types.Pointer:
+				if _, isStruct := u.Elem().Underlying().(*types.Struct); !isStruct {
+					hn, hs := x.ptrHeap(u.Elem())
+					return []frameEntry{{heap: hn, sort: hs}}
+				}
+			}
+			sfail("modifies heap(%s): unsupported type", ty)
+		}
 	case *ESelect:
 		base := env.eval(n.X)
 		p, ok := base.Ty.Go.Underlying().(*types.Pointer)
@@ -79,7 +96,7 @@ func (x *Exec) frameOf(m Expr, env *Env) []frameEntry {
 		return []frameEntry{{heap: hn, sort: hs, ref: &r}}
 	case *EIndex:
 		// whole-heap form: X[$any][$any]
-		if inner, ok := n.X.(*EIndex); ok {
+		if inner, ok := n.X.(*EIndex); ok && isAny(inner.I) {
 			outer := env.eval(inner.X)
 			om, ok := outer.Ty.Go.Underlying().(*types.Map)
 			if !ok {
@@ -107,6 +124,11 @@ func (x *Exec) frameOf(m Expr, env *Env) []frameEntry {
 	}
 	sfail("modifies: unsupported location %s", m)
 	return nil
+}
+
+func isAny(e Expr) bool {
+	id, ok := e.(*EIdent)
+	return ok && id.Name == "$any"
 }
 
 func (x *Exec) havocFrame(st *State, fr []frameEntry, why string) {
@@ -361,7 +383,7 @@ func (x *Exec) applyExtern(instr ssa.Value, name string, rs *types.Tuple, args [
 	default:
 		ufail("extern %s has unknown kind %s", name, ex.Kind)
 	}
-	if len(ex.Ensures) > 0 || len(ex.Requires) > 0 {
+	if len(ex.Ensures) > 0 || len(ex.Requires) > 0 || len(ex.Modifies) > 0 {
 		env := &Env{x: x, cur: st, old: st, vars: map[string]SVal{}, pkg: x.pkg}
 		if callee != nil {
 			env.pkg = callee.Pkg.Pkg
@@ -388,6 +410,16 @@ func (x *Exec) applyExtern(instr ssa.Value, name string, rs *types.Tuple, args [
 			goal := x.evalClause(env, c)
 			x.nsafety++
 			x.vc.oblige(&Obligation{Name: fmt.Sprintf("%s.call(%s).requires#%d", x.fnName(), name, x.nsafety), Kind: "requires-at-call", Tags: c.Tags, Goal: goal, PC: pc, Src: c.Src, Pos: pos, Observe: x.observations()})
+		}
+		if len(ex.Modifies) > 0 {
+			pre := st.clone()
+			env.cur, env.old = pre, pre
+			var fr []frameEntry
+			for _, m := range ex.Modifies {
+				fr = append(fr, x.frameOf(m, env)...)
+			}
+			x.havocFrame(st, fr, name)
+			env.cur = st
 		}
 		for _, c := range ex.Ensures {
 			x.vc.assume(implies(pc, x.evalClause(env, c)), "assumed contract of "+name)
@@ -530,6 +562,7 @@ func (x *Exec) execBuiltin(instr ssa.Value, b *ssa.Builtin, c *ssa.CallCommon, s
 		v := x.val(a)
 		switch u := a.Type().Underlying().(type) {
 		case *types.Slice:
+			x.sliceInv(v)
 			if b.Name() == "len" {
 				x.vals[instr] = sliceLen(v)
 			} else {
